@@ -35,7 +35,7 @@ PARAMS = {
     # and an iteration-limited trust-constr do: that is scipy's behaviour, outside the contract
     # assumed by spec/Optimizer.tla's Return)
     "generic": lambda rnd: {"maxiter": rnd.randint(3, 8), "tol": 1e-6,
-                            "method": rnd.choice([None, None, None, "Nelder-Mead", "SLSQP", "L-BFGS-B", "TNC"])},
+                            "method": rnd.choice([None, None, None, "Nelder-Mead", "L-BFGS-B", "TNC"])},
     "least_squares": lambda rnd: {"maxiter": rnd.randint(4, 12), "tol": 1e-6},
     "dual_annealing": lambda rnd: {"maxiter": rnd.randint(1, 3)},
     "diff_evolution": lambda rnd: {"maxiter": 1, "workers": 1},
@@ -132,6 +132,11 @@ def make_cases(ctx):
         add(front_end="diff_evolution", family=rnd.choice(["std", "asph"]), nvars=rnd.choice([1, 2]),
             params_override={"workers": -1}, sequence=rnd.choice(SEQS[:3]), scaled=True,
             pickup=rnd.random() < 0.3)
+    # (h) a non-monotone scipy method stopped at its iteration limit (the Return contract of
+    #     spec/Optimizer.tla - not worse than the start - is then scipy's to break)
+    for _ in range(4 if quick else 16):
+        add(front_end="generic", family="std", nvars=rnd.choice([2, 3]), scaled=True,
+            params_override={"method": "SLSQP", "maxiter": rnd.choice([2, 3])}, sequence=["opt", "undo"])
     # (g) calibration: the driver performs Finish (and update after undo) itself
     for k in range(8 if quick else 16):
         add(front_end=["generic", "least_squares", "dual_annealing", "diff_evolution"][k % 4], family="std",
